@@ -182,3 +182,20 @@ def describe(op):
     d["upscale"] = op.ifm_upscale.name
     d["fused_quantize"] = bool(op.fused_quantize)
     return d
+
+
+def generate_reusing(descs1, descs2, accel):
+    """History of two calls of the public generator in one process that reuse the SAME operation objects: the objects are
+    built from descs1 and generated, then every object is given the fields of descs2 (same kinds, other addresses) in place
+    and generated again.  Returns the words of the second call (and the objects)."""
+    ops = []
+    for d in descs1:
+        o = build(d)
+        set_block(o, d, accel)
+        ops.append(o)
+    api.npu_generate_register_command_stream(ops, ACCEL[accel])
+    for o, d in zip(ops, descs2):
+        n = build(d)
+        set_block(n, d, accel)
+        o.__dict__.update(n.__dict__)          # same object identity, new field values
+    return api.npu_generate_register_command_stream(ops, ACCEL[accel]), ops
